@@ -275,6 +275,18 @@ def _confusion_matrix_update_input_check(
                 f"num_classes: {num_classes} must be strictly greater than max class predicted: {torch.max(input)}."
             )
 
+        if torch.min(input) < 0:
+            raise ValueError(
+                "Got negative `input` prediction class, "
+                f"class indices must be in [0, {num_classes}): {torch.min(input)}."
+            )
+
+    if torch.min(target) < 0:
+        raise ValueError(
+            "Got negative `target` class, "
+            f"class indices must be in [0, {num_classes}): {torch.min(target)}."
+        )
+
     # check if num classes is high enough to cover targets.
     # pyre-fixme[58]: `>=` is not supported for operand types `Tensor` and
     #  `Optional[int]`.
